@@ -129,6 +129,7 @@ def run(ctx):
         if i < 3:
             cov.sample({"family": name, "spec": fam.spec, "n": n, "duplicates": dup})
     finite_kernels(ctx)
+    targeted(ctx)
 
 
 def _bounds_owner(est):
@@ -162,3 +163,68 @@ def finite_kernels(ctx):
             ctx.issue("violation", f"{cls}:non-finite-activation-or-match", f"steps {bad[:4]}", {"spec": spec, "X": X.tolist()})
         cov.case(("k", cls, spec, X.tolist()), True)
         cov.hit("sample-equals-centre")
+
+
+def targeted(ctx):
+    """cases the random families reach rarely: FusionART channels whose weight is longer than the
+    channel (finding F07) and prediction after a pruning round that removed every category (F14)"""
+    from ..impl import time_limit
+    cov = ctx.cov
+    longer = ["HypersphereART", "EllipsoidART", "ART1", "GaussianART", "BayesianART", "QuadraticNeuronART"]
+    for i in range(ctx.scale(36, 600)):
+        r = gen.rng_for(ctx.seed, "C04-fusion-long", i)
+        cls = longer[i % len(longer)]
+        d = r.randint(1, 2)
+        other = "FuzzyART"
+        sp = [specs.elem_spec(r, cls, d), specs.elem_spec(r, other, 1)]
+        order = [0, 1] if r.random() < 0.5 else [1, 0]
+        chans = [(cls, d), (other, 1)]
+        spec = {"cls": "FusionART", "modules": [sp[k] for k in order], "gamma_values": [0.5, 0.5],
+                "channel_dims": [specs.width(chans[k][0], chans[k][1]) for k in order]}
+        n = r.randint(3, 10)
+        X = np.hstack([specs.elem_data(r, chans[k][0], n, chans[k][1]) for k in order])
+        rep = {"spec": spec, "X": X.tolist()}
+        sig = f"FusionART({cls}):weight-longer-than-channel"
+        try:
+            est = make(spec)
+            with quiet(), time_limit(10.0), np.errstate(all="ignore"):
+                est.fit(X)
+                est.predict(X[:2])
+            # the channel module must hold what it alone would create from its slice of the first sample
+            k = order.index(0)
+            a = sum(spec["channel_dims"][:k])
+            bare = make(sp[0])
+            bare.check_dimensions(X[:, a:a + spec["channel_dims"][k]]) if hasattr(bare, "check_dimensions") else None
+            want = len(np.asarray(bare.new_weight(X[0, a:a + spec["channel_dims"][k]], bare.params)))
+            got = len(np.asarray(est.modules[k].W[0]))
+            if got != want:
+                ctx.issue("violation", sig, f"channel module stores weights of length {got}, its own new_weight has length {want} "
+                          "(the fused weight is sliced by data-channel widths)", rep)
+            elif not finite_weights(est):
+                ctx.issue("violation", sig, "non-finite channel weights", rep)
+            else:
+                cov.hit(f"fusion-longer-weight-ok:{cls}")
+        except Exception as e:
+            ctx.issue("violation", sig, f"fit/predict raised {exc_enum(e)}: {e!r}", rep)
+        cov.case(("fusion-long", spec, rep["X"]), True)
+    from ..impl import TopoART, FuzzyART
+    for i in range(ctx.scale(6, 60)):
+        r = gen.rng_for(ctx.seed, "C04-topo-wipe", i)
+        tau = r.randint(2, 4)
+        X = gen.cc(np.array([[k / (tau - 1 + 1e-9) if tau > 1 else 0.0, (k * 7 % tau) / tau] for k in range(tau)]))
+        X = gen.cc(np.array([[(k % 2) * 1.0, (k // 2 % 2) * 1.0] for k in range(tau)]))
+        rep = {"tau": tau, "phi": 2, "X": X.tolist()}
+        try:
+            with quiet(), time_limit(10.0):
+                t = TopoART(FuzzyART(1.0, 2.0 ** -10, 1.0), 0.5, tau, 2)
+                t.fit(X)
+                emptied = len(t.W) == 0
+                t.predict(X[:1])
+            cov.hit("topo-wipe-out-predict-ok" if emptied else "topo-no-wipe-out")
+        except Exception as e:
+            if len(t.W) == 0:
+                ctx.issue("violation", "TopoART.predict:empty-model",
+                          f"predict raises {e!r} after a pruning round removed every category", rep)
+            else:
+                ctx.issue("violation", f"TopoART.fit-or-predict:{exc_enum(e)}", repr(e), rep)
+        cov.case(("topo-wipe", tau), True)
